@@ -171,7 +171,7 @@ pub fn rtcp_packet(r: &mut Rng, kind: u64, in_range: bool) -> RtcpPacket {
             RtcpPacket::RemoteBitrateEstimate(RemoteBitrateEstimate { sender_ssrc: g32(r), bitrate_bps: br, ssrcs: (0..ns).map(|_| g32(r)).collect() })
         }
         _ => {
-            let n = if in_range { 4 * r.below(6) as usize } else { pk!(r, [1usize, 2, 3, 5, 7, 4]) };
+            let n = if in_range { pk!(r, [0usize, 4, 8, 1, 2, 3, 5, 7, 13, 20]) } else { r.below(9) as usize };
             let rt = if in_range { pk!(r, [0u32, 1, 0x00FF_FFFF, 0x0080_0000, (r.next() as u32) & 0x00FF_FFFF]) }
                      else { pk!(r, [0x0100_0000u32, 0xFFFF_FFFF, 5]) };
             RtcpPacket::TransportWideCc(TransportWideCc { sender_ssrc: g32(r), media_ssrc: g32(r), base_sequence: g16(r),
